@@ -16,7 +16,8 @@ import codeexec as X
 from pyharness import Family, Lcx, main
 
 TRANSFORMS = [dict(), dict(perm_comp=True), dict(rev_vars=True), dict(rev_eqs=True), dict(perm_comp=True, rev_vars=True, rev_eqs=True),
-              dict(rename=1), dict(rename=2), dict(rename=3), dict(rename=4), dict(rename=1, rev_eqs=True, perm_comp=True)]
+              dict(rename=1), dict(rename=2), dict(rename=3), dict(rename=4), dict(rename=1, rev_eqs=True, perm_comp=True),
+              dict(init_on_twin=True), dict(init_on_twin=True, perm_comp=True, rev_eqs=True)]
 
 
 def tname(t):
@@ -91,6 +92,9 @@ def wellformed(res, L, kinds, reads):
                     continue  # a state's value is known; its rate equation is not a prerequisite
                 if need and not (need & set(eqs[x]['deps'])) and not (need & {x}):
                     out.append(('wellformed:dependency-missing', {'equation_of': i, 'reads': j, 'deps': eqs[x]['deps'], 'need': sorted(need)}))
+    for x, q in enumerate(eqs):
+        if x in q['deps']:
+            out.append(('wellformed:equation-depends-on-itself', {'equation': x, 'type': q['type']}))
     # non-NLA equations admit a topological order
     color = {}
 
@@ -219,7 +223,7 @@ def families(opts):
             d.update(graph=desc, transform=tname(t))
             ctx.violation(sig if sig.startswith('C15:') else 'graph:' + sig, d)
         for t in TRANSFORMS:
-            if len(set(place)) == 1 and (t.get('perm_comp') and len(t) == 1 or t.get('rename') in (2, 3, 4)):
+            if len(set(place)) == 1 and (t.get('perm_comp') and len(t) == 1 or t.get('rename') in (2, 3, 4) or t.get('init_on_twin')):
                 continue  # no second component / no twins: the transformation is the identity
             L = D.Layout(kinds, reads, place, **t)
             res = r.job({'id': ci, 'doc': L.render(), 'code': not t, 'ast': False})
@@ -303,7 +307,9 @@ def families(opts):
             # the copy can be read as an implicit equation for the initialised variable it mentions (initial value = initial guess):
             # CellML has no way to tell a constant from a guess, so a valid NLA/DAE reading is accepted as well
             want = want | {'nla', 'dae'}
-        if v == 'dup_eq' and kinds[i] == 'N':
+        if v == 'drop_eq' and kinds[i] == 'G':
+            want = {'underconstrained', 'algebraic', 'ode', 'nla', 'dae'}  # an initialised variable without its equation is a constant
+        if v == 'dup_eq' and kinds[i] in 'NG':
             want = {'overconstrained', 'nla', 'dae', 'unsuitably_constrained'}  # two copies of one implicit equation: documented nowhere; not judged strictly
         ctx.outcome('%s:%s' % (v, ty))
         if ty not in want:
@@ -320,9 +326,58 @@ def families(opts):
         return {'kinds': ''.join(kinds), 'reads': [sorted(map(str, x)) for x in reads], 'place': list(place), 'truth': [sorted(x) for x in D.truth(kinds, reads)[0]],
                 'model_type': D.truth(kinds, reads)[1], 'document': D.Layout(kinds, reads, place).render()}
 
+    # ---- C17: one class carries a name, a units name and a component name longer than everything else in the model
+    ncs = []
+
+    def name_cases():
+        if not ncs:
+            for ci, (kinds, reads, place) in enumerate(r.cases()):
+                for cls in list(range(len(kinds))) + (['t'] if 'S' in kinds else []):
+                    ncs.append((ci, cls))
+        return ncs
+
+    def run_names(ni, ctx):
+        sys.path.insert(0, os.path.join(V, 'harness'))
+        import c03
+        ci, cls = name_cases()[ni]
+        kinds, reads, place = r.cases()[ci]
+        L = D.Layout(kinds, reads, place, long=cls)
+        res = r.job({'id': ni, 'doc': L.render(), 'code': True, 'ast': True})
+        ctx.judged += 1
+        desc = {'kinds': ''.join(kinds), 'reads': [sorted(map(str, x)) for x in reads], 'place': list(place), 'long_class': str(cls)}
+        if 'crash' in res:
+            ctx.violation('names:pipeline-crash:' + res['crash'], {'graph': desc})
+            return
+        if res.get('parse_issues') or res.get('validate_errors') or not res.get('valid'):
+            ctx.outcome('names:model-not-valid(not judged here):%s' % res.get('type'))
+            return
+        ctx.outcome('names:%s:long=%s' % (res.get('type'), 't' if cls == 't' else kinds[cls]))
+        run03 = c03.Runner({'prop': 'C17'})
+        crun = prun = None
+        cdir = None
+        try:
+            so, cdir = X.compile_c(res['c_h'], res['c_c'], r.work(), 'n', strict=True)
+            crun = X.CRun(so, res['c_h'])
+        except X.CompileError as ce:
+            if 'findRoot' in ce.diag and 'undeclared' in ce.diag:
+                ctx.violation('graph:values:c-does-not-compile', {'diagnostics': ce.diag[:600], 'graph': desc})
+            else:
+                ctx.violation('names:structure:c-does-not-compile-cleanly', {'diagnostics': ce.diag[:1000], 'graph': desc})
+        try:
+            prun = X.PyRun(res['py'])
+        except Exception as ex:
+            ctx.violation('names:structure:python-does-not-load:%s' % type(ex).__name__, {'error': str(ex)[:300], 'graph': desc})
+        for kk, sig, det in run03.structure(res, crun, prun):
+            d = dict(det)
+            d['graph'] = desc
+            ctx.violation('names:%s:%s-model:long=%s' % (sig, res.get('type'), 't' if cls == 't' else kinds[cls]), d)
+        if cdir:
+            shutil.rmtree(cdir, ignore_errors=True)
+
     import atexit
     atexit.register(r.cleanup)
-    return [Family('graph', lambda: len(r.cases()), run_graph, show_graph),
+    return [Family('names', lambda: len(name_cases()), run_names, lambda ni: {'long_class': str(name_cases()[ni][1]), 'graph': show_graph(name_cases()[ni][0])}),
+            Family('graph', lambda: len(r.cases()), run_graph, show_graph),
             Family('variant', lambda: len(vcases()), run_variant, lambda vi: {'variant': vcases()[vi][1], 'var': vcases()[vi][2], 'graph': show_graph(vcases()[vi][0])})]
 
 
